@@ -5,12 +5,15 @@ package config
 
 //@ func (a *defaultAuthenticator) Handle(response tq.Response, request tq.Request)
 //@   implements tq.Handler.Handle
+//@   ensures[C10] ghost.authenPass == old(ghost.authenPass)
 
 //@ func (a *defaultAuthorizer) Handle(response tq.Response, request tq.Request)
 //@   implements tq.Handler.Handle
+//@   ensures[C11] ghost.authorStatus == tq.AuthorStatusFail
 
 //@ func (a *defaultAccounter) Handle(response tq.Response, request tq.Request)
 //@   implements tq.Handler.Handle
+//@   ensures[C12] ghost.acctStatus == tq.AcctReplyStatusError
 
 //@ func (c *Command) TrimSpace()
 //@   requires c != nil
